@@ -18,7 +18,7 @@ THEOREMS = [
     "Ffcx.LNodes.float_product_sound", "Ffcx.LNodes.ratExtra_lawful",
     "Ffcx.LNodes.global_index_value",
     "Ffcx.LNodes.prod_perm_sound", "Ffcx.LNodes.licm_factor_sound", "Ffcx.LNodes.execL_append",
-    "Ffcx.LNodes.fuse_adjacent_sections_partial",
+    "Ffcx.LNodes.fuse_adjacent_sections_partial", "Ffcx.LNodes.fuse_sections_hop_sound", "Ffcx.LNodes.exec_commute",
 ]
 
 
@@ -211,6 +211,42 @@ def optimiser_semantic(chk, d, entries, nin):
                     break
 
 
+def hop_certificates(chk, d, entries):
+    """Side condition of fuse_sections_hop_sound on the REAL inputs of fuse_sections: every statement of a
+    later same-named section must be footprint-disjoint from everything it hops over."""
+    import ffcx.codegeneration.optimizer as opt
+    captured = []
+    real = opt.fuse_sections
+
+    def spy(code, name):
+        idx = [i for i, s in enumerate(code) if isinstance(s, L.Section) and s.name == name]
+        for k in idx[1:]:
+            between = [c for i, c in enumerate(code) if idx[0] < i < k and i not in idx]
+            if between:
+                try:
+                    captured.append((name, export.stmt(code[k]), [export.stmt(b) for b in between]))
+                except export.ExportError:
+                    pass
+        return real(code, name)
+    opt.fuse_sections = spy
+    try:
+        for e in entries:
+            try:
+                kernels.cases_for_entry(e)
+            except Exception:
+                continue
+    finally:
+        opt.fuse_sections = real
+    for name, t, ps in captured:
+        r = d.ask(f"(hopmod {t} {' '.join(ps)})")
+        chk.case("hop_certificate", f"{name}:{hash((t, tuple(ps))) & 0xffffff:x}",
+                 sample={"section": name, "hops_over": len(ps), "reply": r} if len(chk.samples) < 10 else None)
+        if r[:2] != ["ok", "true"]:
+            chk.disagree("fuse_sections moves a section over statements it is not footprint-disjoint from (modulo loop indices)",
+                         {"section": name, "moved": t[:300], "over": [p[:200] for p in ps][:3], "reply": r})
+    chk.notes["hop_certificates"] = len(captured)
+
+
 def run(chk):
     chk.rule = ("folding: all ordered pairs from a pool of 29 operands (every LExpr class, literal values 0,±1,… int/float/complex) "
                 "and Python numbers on either side × {+,-,*,/}; non-trivial = the real result is not the plain binary node "
@@ -229,5 +265,6 @@ def run(chk):
             ents += corpus.generated(chk.seed, 6)
             nin = 1
         optimiser_semantic(chk, d, ents, nin)
+        hop_certificates(chk, d, ents)
     if chk.tier == "thorough":
         chk.leanchecker(["FfcxProofs.C17"])
